@@ -137,6 +137,7 @@ impl Default for C08 {
             "duplicate_account_mutation_rejected",
             "unsigned_rejected",
             "frozen_column_swept",
+            "stored_destination_checked",
             "consistent_foreign_bank_mutation",
             "foreign_group_with_its_role_holder_mutation",
         ]);
@@ -555,6 +556,27 @@ impl Monitor for C08 {
             if a.account_flags & ACCOUNT_IN_RECEIVERSHIP != 0 {
                 out.push(viol("C08", "signer_check_voided_outside_bracket", &crate::sim::tx_tag(s.tx),
                     format!("account {k} is left in receivership after the transaction: any signer may now withdraw/repay"), idx));
+            }
+        }
+        // destinations fixed by stored state are also checked directly on every accepted
+        // instruction (a mutation sweep cannot see a check that reads the wrong *copy* of the
+        // stored value: then only the wrong destination is accepted and nothing is left to mutate)
+        {
+            let states = s.states();
+            for (i, ix) in s.tx.ixs.iter().enumerate() {
+                if ix.program_id != marginfi_id() || ix.tag != "collect_bank_fees" {
+                    continue;
+                }
+                let st = states[i];
+                let (Some(fs), Some(bank)) = (model::fee_state_of(st), ix.accounts.get(1).and_then(|m| model::bank_of(st, &m.pubkey))) else { continue };
+                let Some(mint_acc) = st.get(&bank.mint) else { continue };
+                let want = crate::ix::ata(&fs.global_fee_wallet, &bank.mint, &mint_acc.owner);
+                let got = ix.accounts.get(7).map(|m| m.pubkey).unwrap_or_default();
+                self.cov.probe("stored_destination_checked");
+                if got != want {
+                    out.push(viol("C08", "accepted_with_substituted_account", ix.tag,
+                        format!("slot 7 (StoredDest): fee token account {got} is not the token account {want} of the fee state's wallet {}", fs.global_fee_wallet), idx));
+                }
             }
         }
         // sampling with a bias toward instruction kinds not yet swept in this run
